@@ -5,6 +5,7 @@
 //!   cases    real verify on explicit nonce tuples (negative forms, replay, samples)
 //!   record   solver-found cycles and near misses in larger graphs as events (direction B)
 //!   ser      Proof packing / padding / difficulty cases
+//!   select   which graph definition global::create_pow_context picks per chain type / height / edge bits
 mod graph;
 mod run;
 mod sip;
@@ -17,6 +18,8 @@ use rand::{Rng, SeedableRng};
 use run::{JobSpec, Source, Verdict};
 use serde_json::{json, Value};
 use sip::Variant;
+use std::sync::atomic::{AtomicI64, Ordering};
+use std::sync::Arc;
 use vcommon::*;
 
 const K: usize = 8; // global::proofsize() under ChainTypes::AutomatedTesting (checked in `pin`)
@@ -33,6 +36,7 @@ fn main() {
 		Some("cases") => cases(&args),
 		Some("record") => record(&args),
 		Some("ser") => ser::ser(&args),
+		Some("select") => select(&args),
 		_ => {
 			eprintln!("cuckoo pin|scan|exhaust|cases|record|ser");
 			2
@@ -146,6 +150,32 @@ fn pin(_args: &Args) -> i32 {
 			fails.push("real cuckatoo verify refuses the repository's own vector".into());
 		}
 	}
+	// edge_bits above 29 select cuckatoo on the main network whatever the height: the repository's
+	// cuckatoo31 vector through global::create_pow_context at heights of header versions 1..4
+	{
+		let h = std::thread::spawn(move || {
+			global::set_local_chain_type(ChainTypes::Mainnet);
+			let mut bad = vec![];
+			for height in [0u64, 262_080, 524_160, 786_240, 1_048_320] {
+				let r = std::panic::catch_unwind(|| match global::create_pow_context::<u64>(height, 31, 42, 10) {
+					Err(_) => Verdict::Reject,
+					Ok(mut ctx) => {
+						ctx.set_header_nonce(vec![0u8; 80], Some(99), false).unwrap();
+						run::verify_once(ctx.as_ref(), 31, &vectors::CUCKATOO_V1_31)
+					}
+				});
+				if r.ok() != Some(Verdict::Accept) {
+					bad.push(height);
+				}
+			}
+			bad
+		});
+		checks += 5;
+		let bad = h.join().unwrap();
+		if !bad.is_empty() {
+			fails.push(format!("real create_pow_context(height, 31 bits) refuses the repository's cuckatoo31 vector at heights {:?}", bad));
+		}
+	}
 	println!("{}", json!({"ok": fails.is_empty(), "checks": checks, "fails": fails}));
 	0
 }
@@ -189,7 +219,36 @@ fn scan(args: &Args) -> i32 {
 				gid += 1;
 			}
 		}
-		summary.push(json!({"variant": var.name(), "with_cycle": n_with, "without": n_without, "seeds_tried": tries}));
+		// graphs holding the shapes that pass every local test without being one cycle: two
+		// half-length cycles sharing a meeting point (figure eight) or disjoint
+		let shapes = args.u64("shapes", 0) as usize;
+		let (mut n_fig, mut n_two, mut stries) = (0usize, 0usize, 0u64);
+		while (n_fig < shapes || n_two < shapes) && stries < 3_000_000 {
+			stries += 1;
+			let seed: u64 = rng.gen::<u64>() >> 1;
+			let es = table(var, eb, seed);
+			let idx = Index::new(var, es.clone());
+			if idx.cycles(K / 2, 2, true).len() < 2 {
+				continue;
+			}
+			let (two, fig) = glued(var, &idx);
+			let take_fig = !fig.is_empty() && n_fig < shapes;
+			let take_two = !two.is_empty() && n_two < shapes;
+			if take_fig || take_two {
+				if take_fig {
+					n_fig += 1;
+				}
+				if take_two {
+					n_two += 1;
+				}
+				let cyc = idx.cycles(K, 1000, true).len();
+				out.put(&graph_json(gid, var, eb, seed, &es, cyc));
+				gid += 1;
+			}
+		}
+		scanned += stries;
+		summary.push(json!({"variant": var.name(), "with_cycle": n_with, "without": n_without, "seeds_tried": tries,
+			"with_figure_eight": n_fig, "with_two_half_cycles": n_two, "seeds_tried_for_shapes": stries}));
 	}
 	out.finish();
 	println!("{}", json!({"graphs": gid - gid0, "scanned": scanned, "per_variant": summary}));
@@ -210,28 +269,87 @@ fn tuples_json(kept: &[(Vec<u64>, Verdict)], which: Verdict) -> Vec<Value> {
 	kept.iter().filter(|(_, v)| *v == which).map(|(t, _)| json!(t)).collect()
 }
 
+fn deferrer(g: &Value) -> Option<Arc<dyn Fn(&[u64]) -> bool + Send + Sync>> {
+	let var = Variant::from_name(g["variant"].as_str().unwrap());
+	if var != Variant::Cuckarood {
+		return None;
+	}
+	let es = table(var, g["eb"].as_u64().unwrap() as u32, g["seed"].as_u64().unwrap());
+	Some(Arc::new(move |t: &[u64]| {
+		let sel: Vec<Edge> = t.iter().map(|n| es[*n as usize]).collect();
+		graph::walk_may_not_return(var, &sel)
+	}))
+}
+
 fn exhaust(args: &Args) -> i32 {
 	let graphs = read_ndjson(args.req("graphs"));
 	let threads = args.u64("threads", 4) as usize;
 	let mut out = NdWriter::create(args.req("out"));
+	let sample = args.u64("sample", 0) as usize; // 0: every K-subset; M: M random K-subsets per graph
+	let rseed = args.u64("seed", 1);
 	let specs: Vec<JobSpec> = graphs
 		.iter()
-		.map(|g| JobSpec {
+		.map(|g| {
+			let n = g["N"].as_u64().unwrap() as usize;
+			let source = if sample == 0 {
+				Source::combos(n, K)
+			} else {
+				let mut rng = mkrng(rseed, 0x5a3b ^ g["seed"].as_u64().unwrap());
+				let mut items = Vec::with_capacity(sample);
+				for _ in 0..sample {
+					let mut t: Vec<u64> = vec![];
+					while t.len() < K {
+						let x = rng.gen_range(0, n as u64);
+						if !t.contains(&x) {
+							t.push(x);
+						}
+					}
+					t.sort_unstable();
+					items.push(t);
+				}
+				Source::list(items)
+			};
+			JobSpec {
+				var: Variant::from_name(g["variant"].as_str().unwrap()),
+				edge_bits: g["eb"].as_u64().unwrap() as u8,
+				seed: g["seed"].as_u64().unwrap(),
+				proof_size: K,
+				chain: ChainTypes::AutomatedTesting,
+				source,
+				keep_all: false,
+				defer: deferrer(g),
+			}
+		})
+		.collect();
+	let budget = AtomicI64::new(args.u64("max-hangs", 6) as i64);
+	let mut res = run::run_jobs(specs, threads, &budget);
+	// second pass: the tuples set aside by the scheduling aid, each graph as an explicit list
+	let dspecs: Vec<JobSpec> = graphs
+		.iter()
+		.zip(res.iter())
+		.map(|(g, r)| JobSpec {
 			var: Variant::from_name(g["variant"].as_str().unwrap()),
 			edge_bits: g["eb"].as_u64().unwrap() as u8,
 			seed: g["seed"].as_u64().unwrap(),
 			proof_size: K,
 			chain: ChainTypes::AutomatedTesting,
-			source: Source::combos(g["N"].as_u64().unwrap() as usize, K),
+			source: Source::list(r.deferred.clone()),
 			keep_all: false,
+			defer: None,
 		})
 		.collect();
-	let res = run::run_jobs(specs, threads, args.u64("max-hangs", 6));
+	let dres = if budget.load(Ordering::SeqCst) > 0 { run::run_jobs(dspecs, threads, &budget) } else { dspecs.iter().map(|_| run::JobResult::default()).collect() };
 	let mut total = 0u64;
-	for (g, r) in graphs.iter().zip(res.iter()) {
+	for ((g, r), d) in graphs.iter().zip(res.iter_mut()).zip(dres.into_iter()) {
+		let deferred = r.deferred.len() as u64;
+		r.calls += d.calls;
+		r.rejects += d.rejects;
+		r.hangs += d.hangs;
+		r.kept.extend(d.kept.into_iter());
 		total += r.calls;
 		out.put(&json!({"gid": g["gid"], "variant": g["variant"], "eb": g["eb"], "seed": g["seed"], "calls": r.calls,
-			"rejects": r.rejects, "complete": r.complete,
+			"rejects": r.rejects, "complete": r.complete && (d.complete || deferred == 0),
+			"deferred": deferred, "deferred_run": d.calls,
 			"accepted": tuples_json(&r.kept, Verdict::Accept),
 			"panics": tuples_json(&r.kept, Verdict::Panic),
 			"hangs": tuples_json(&r.kept, Verdict::Hang)}));
@@ -268,13 +386,29 @@ fn cases(args: &Args) -> i32 {
 			chain,
 			source: Source::list(g.3.iter().map(|i| cs[*i]["nonces"].as_array().unwrap().iter().map(|x| x.as_u64().unwrap()).collect()).collect()),
 			keep_all: true,
+			defer: None,
 		})
 		.collect();
-	let res = run::run_jobs(specs, threads, 1_000_000);
+	let res = run::run_jobs(specs, threads, &AtomicI64::new(args.u64("max-hangs", 1000) as i64));
 	for (g, r) in groups.iter().zip(res.iter()) {
 		for (i, (_, v)) in g.3.iter().zip(r.kept.iter()) {
 			let mut c = cs[*i].clone();
 			c["verdict"] = json!(v.name());
+			// my endpoints of the in-range nonces mentioned, so that the record can be checked by TLC
+			let keys = sip::keys_from_header(&run::header_for(g.2), Some(run::header_nonce(g.2)));
+			let n_edges = 1u64 << g.1;
+			let mut ns: Vec<u64> = c["nonces"].as_array().unwrap().iter().map(|x| x.as_u64().unwrap()).filter(|x| *x < n_edges).collect();
+			ns.sort_unstable();
+			ns.dedup();
+			c["ends"] = json!(ns
+				.iter()
+				.map(|x| {
+					let (u, v) = sip::endpoints(g.0, &keys, g.1 as u32, *x);
+					json!([x, u, v])
+				})
+				.collect::<Vec<_>>());
+			c["N"] = json!(n_edges);
+			c["K"] = json!(K);
 			out.put(&c);
 		}
 	}
@@ -482,15 +616,22 @@ fn record(args: &Args) -> i32 {
 		for &eb in &ebs {
 			let mut rng = mkrng(seed0, 0xB000 + eb as u64 * 16 + var as u64);
 			let (mut got, mut got_shapes, mut tries) = (0usize, 0usize, 0u64);
-			while (got < per || got_shapes < 1) && tries < 20000 {
+			let (mut got_two, mut got_fig) = (0usize, 0usize);
+			while (got < per || (got_two < 1 && tries < 3000) || (got_fig < 1 && eb <= 9 && tries < 4000)) && tries < 30000 {
 				tries += 1;
 				let seed: u64 = rng.gen::<u64>() >> 1;
 				let idx = Index::new(var, table(var, eb, seed));
 				let cycs = if got < per { idx.cycles(K, 4, true) } else { vec![] };
 				let (two, fig) = glued(var, &idx);
-				let shapes = !two.is_empty() || !fig.is_empty();
-				if cycs.is_empty() && !(shapes && got_shapes < 2) {
+				let shapes = (!two.is_empty() && got_two < 2) || (!fig.is_empty() && got_fig < 2);
+				if cycs.is_empty() && !shapes {
 					continue;
+				}
+				if !two.is_empty() {
+					got_two += 1;
+				}
+				if !fig.is_empty() {
+					got_fig += 1;
 				}
 				let paths = idx.cycles(K, 3, false);
 				let mut evs = vec![];
@@ -511,7 +652,7 @@ fn record(args: &Args) -> i32 {
 				}
 				gs.push(G { var, eb, seed, idx, evs });
 			}
-			stats.insert(format!("{}{}", var.name(), eb), json!({"graphs_scanned": tries, "cycles": got, "graphs_with_glued_shapes": got_shapes}));
+			stats.insert(format!("{}{}", var.name(), eb), json!({"graphs_scanned": tries, "cycles": got, "graphs_with_glued_shapes": got_shapes, "with_two_half_cycles": got_two, "with_figure_eight": got_fig}));
 		}
 	}
 	// the repository's own cuckatoo solver on the same graphs: what it finds must be cycles too
@@ -540,9 +681,10 @@ fn record(args: &Args) -> i32 {
 			chain: ChainTypes::AutomatedTesting,
 			source: Source::list(g.evs.iter().map(|e| e.nonces.clone()).collect()),
 			keep_all: true,
+			defer: None,
 		})
 		.collect();
-	let res = run::run_jobs(specs, threads, 1_000_000);
+	let res = run::run_jobs(specs, threads, &AtomicI64::new(args.u64("max-hangs", 1000) as i64));
 	// 3. events: the endpoints listed are mine, the verdict is the real code's
 	let mut kinds = serde_json::Map::new();
 	for (g, r) in gs.iter().zip(res.iter()) {
@@ -555,7 +697,7 @@ fn record(args: &Args) -> i32 {
 			let big = e.nonces.iter().any(|x| *x >= (1u64 << 31));
 			// TLC integers are 32-bit: a nonce beyond 2^31 is logged as -1 (any out-of-range value)
 			let logged: Vec<i64> = e.nonces.iter().map(|x| if *x >= (1u64 << 31) { -1 } else { *x as i64 }).collect();
-			out.put(&json!({"k": "Verify", "variant": g.var.name(), "eb": g.eb, "seed": g.seed, "N": n, "K": K, "kind": e.kind,
+			out.put(&json!({"k": "Verify", "variant": g.var.name(), "eb": g.eb, "seed": g.seed.to_string(), "N": n, "K": K, "kind": e.kind,
 				"nonces": logged, "ends": ends, "verdict": v.name(), "clipped": big}));
 			let c = kinds.entry(format!("{}:{}", e.kind, v.name())).or_insert(json!(0));
 			*c = json!(c.as_u64().unwrap() + 1);
@@ -564,5 +706,95 @@ fn record(args: &Args) -> i32 {
 	let n = out.n;
 	out.finish();
 	println!("{}", json!({"events": n, "graphs": gs.len(), "repo_solver_cycles": solver_found, "by_kind": kinds, "search": stats}));
+	0
+}
+
+// ------------------------------------------------------------------------------------------
+// select: `global::create_pow_context` (the single place a verifier is chosen) by chain type,
+// header version of the height, and edge_bits. For each graph definition a cycle of the chain
+// type's proof size is found in a small graph with my own finder; the context the node would
+// build for heights of every header version must accept it iff it built that definition.
+
+fn select(args: &Args) -> i32 {
+	let seed0 = args.u64("seed", 1);
+	let eb = args.u64("eb", 10) as u32;
+	let mut out = NdWriter::create(args.req("out"));
+	let mut info = vec![];
+	for (chain, cname) in [(ChainTypes::Mainnet, "mainnet"), (ChainTypes::AutomatedTesting, "automated")] {
+		let h = std::thread::spawn(move || {
+			global::set_local_chain_type(chain);
+			let k = global::proofsize();
+			let mut evs: Vec<Value> = vec![];
+			let mut found = vec![];
+			// one height per header version 1..=5
+			let mut heights: Vec<(u64, u64)> = vec![];
+			let mut hgt = 0u64;
+			while heights.len() < 5 && hgt < 100_000_000 {
+				let v = grin_core::consensus::header_version(hgt).0 as u64;
+				if heights.iter().all(|(x, _)| *x != v) {
+					heights.push((v, hgt));
+				}
+				hgt += if chain == ChainTypes::Mainnet { 20_160 } else { 1 };
+			}
+			for var in sip::ALL.iter().cloned() {
+				let mut rng = mkrng(seed0, 0x5e1ec7 + var as u64 + k as u64 * 8);
+				let mut cyc = None;
+				let mut tries = 0;
+				while cyc.is_none() && tries < 4000 {
+					tries += 1;
+					let seed: u64 = rng.gen::<u64>() >> 1;
+					let c = Index::new(var, table(var, eb, seed)).cycles(k, 1, true);
+					if let Some(c) = c.into_iter().next() {
+						cyc = Some((seed, c));
+					}
+				}
+				let (seed, cyc) = match cyc {
+					Some(x) => x,
+					None => continue,
+				};
+				found.push(json!({"variant": var.name(), "seeds_tried": tries}));
+				let header = run::header_for(seed);
+				let keys = sip::keys_from_header(&header, Some(run::header_nonce(seed)));
+				let mut ends_by = serde_json::Map::new();
+				for v2 in sip::ALL.iter() {
+					ends_by.insert(
+						v2.name().to_string(),
+						json!(cyc
+							.iter()
+							.map(|n| {
+								let (u, v) = sip::endpoints(*v2, &keys, eb, *n);
+								json!([n, u, v])
+							})
+							.collect::<Vec<_>>()),
+					);
+				}
+				for (ver, height) in heights.iter() {
+					let verdict = match std::panic::catch_unwind(std::panic::AssertUnwindSafe(|| {
+						match global::create_pow_context::<u64>(*height, eb as u8, k, 10) {
+							Err(_) => "noctx",
+							Ok(mut ctx) => {
+								ctx.set_header_nonce(header.clone(), Some(run::header_nonce(seed)), false).unwrap();
+								run::verify_once(ctx.as_ref(), eb as u8, &cyc).name()
+							}
+						}
+					})) {
+						Ok(v) => v,
+						Err(_) => "panic",
+					};
+					evs.push(json!({"k": "Select", "chain": cname, "version": ver, "height": height, "eb": eb, "N": 1u64 << eb, "K": k,
+						"cycle_of": var.name(), "seed": seed.to_string(), "nonces": cyc, "ends_by": ends_by, "verdict": verdict}));
+				}
+			}
+			(evs, found)
+		});
+		let (evs, found) = h.join().expect("select thread");
+		for e in evs {
+			out.put(&e);
+		}
+		info.push(json!({"chain": cname, "cycles": found}));
+	}
+	let n = out.n;
+	out.finish();
+	println!("{}", json!({"events": n, "search": info}));
 	0
 }
